@@ -141,6 +141,8 @@ def run_property(prop, tier, seed, jobs=None, only=None, verbose=False):
     os.makedirs(os.path.join(VERIF, "evidence"), exist_ok=True)
     with open(os.path.join(VERIF, "evidence", f"{prop}.json"), "w") as fh:
         json.dump(ev, fh, indent=1, sort_keys=True)
+    slow = sorted(results, key=lambda r: -r["wall_s"])[:4]
+    lines.append("slowest families: " + ", ".join(f"{r['family']} {r['wall_s']}s ({r['paths']} paths)" for r in slow))
     for l in lines:
         print(l)
     print(f"{prop} tier={tier}: families={len(specs)} obligations={len(obls)} proved={len(proved)} "
